@@ -26,10 +26,10 @@ var c13Shapes = []string{
 	"bare-header", "bad-bin-header+body", "bad-bin-trailer", "header-md", "body",
 	"trailer-ok", "trailer-err", "trailer-no-status", "reset+trailer", "reset-bare",
 	"body+trailer-ok", "unary-reply", "garbage-body", "trailer-md", "body2",
-	"bad-bin-trailer-err",
+	"bad-bin-trailer-err", "no-header-trailer-ok", "no-header-reset+trailer",
 }
 
-const c13NShapes = 21
+const c13NShapes = 23
 
 const c13NSym = 3 * c13NShapes // 21 shapes x {call A, call B, unknown id}
 
@@ -67,6 +67,10 @@ func c13Envelope(sym int, n int, id uint64, method string) (*wire.Rpc, []byte, b
 		return &wire.Rpc{Id: id, Header: hdr(), Status: errSt, Trailer: &goatorepo.Trailer{}}, nil, false
 	case "err-status+body+trailer":
 		return &wire.Rpc{Id: id, Header: hdr(), Status: errSt, Body: body, Trailer: &goatorepo.Trailer{}}, pl, false
+	case "no-header-trailer-ok":
+		return &wire.Rpc{Id: id, Status: okSt, Trailer: &goatorepo.Trailer{}}, nil, true
+	case "no-header-reset+trailer":
+		return &wire.Rpc{Id: id, Reset_: &goatorepo.Reset{Type: "RST_STREAM"}, Trailer: &goatorepo.Trailer{}}, nil, false
 	case "bare-header":
 		return &wire.Rpc{Id: id, Header: hdr()}, nil, false
 	case "bad-bin-header+body":
@@ -440,7 +444,7 @@ func init() {
 	core.Register(&core.Prop{
 		ID:         "C13",
 		Level:      "exploration",
-		Rule:       "alphabet = 21 response shapes x addressed to {call A, call B, an unknown id} (63 symbols); a scripted server sends EVERY sequence up to length 3 (quick) / 4 (thorough) for the pairing unary+stream without stats handler and up to 2 / 3 for stream+stream and for both pairings with a stats handler, to a real client with the two calls outstanding (every accessor - Invoke, Header, receive loop, Trailer - in its own goroutine), then the connection is closed after exactly those envelopes (read error: a custom error, io.EOF or an error wrapping context.Canceled); a fifth configuration pairs the unary call with a stream whose caller never receives, cancels after the first envelope and never looks at it again (lengths up to 2 / 3, plus directed sequences of 2..7 bodies for it followed by the unary reply); plus seeded random sequences of length 4..33. Oracle: process alive, every operation returned at the final state, every message returned is carried in order by an envelope addressed to that call, unary success has data, stream io.EOF only after a successful end addressed to it.",
+		Rule:       "alphabet = 23 response shapes (incl. header-less bodies, trailers and resets) x addressed to {call A, call B, an unknown id} (69 symbols); a scripted server sends EVERY sequence up to length 3 (quick) / 4 (thorough) for the pairing unary+stream without stats handler and up to 2 / 3 for stream+stream and for both pairings with a stats handler, to a real client with the two calls outstanding (every accessor - Invoke, Header, receive loop, Trailer - in its own goroutine), then the connection is closed after exactly those envelopes (read error: a custom error, io.EOF or an error wrapping context.Canceled); a fifth configuration pairs the unary call with a stream whose caller never receives, cancels after the first envelope and never looks at it again (lengths up to 2 / 3, plus directed sequences of 2..7 bodies for it followed by the unary reply); plus seeded random sequences of length 4..33. Oracle: process alive, every operation returned at the final state, every message returned is carried in order by an envelope addressed to that call, unary success has data, stream io.EOF only after a successful end addressed to it.",
 		Plan:       func(tier string, seed int64) int { return len(c13List(tier)) },
 		Run:        c13Run,
 		Exhaustive: func(string) bool { return true },
